@@ -274,7 +274,7 @@ pub fn make_knobs(profile: Profile, rng: &mut Rng, thorough: bool) -> Knobs {
         adaptive_pct: 0,
         extreme_rewards: false,
         v2_only: false,
-        has_rewards: profile == Profile::Rewards || profile == Profile::Byz,
+        has_rewards: profile == Profile::Rewards || profile == Profile::Byz || profile == Profile::Lifecycle,
         has_admin: profile == Profile::Admin || profile == Profile::Byz,
         lifecycle_pct: match profile {
             Profile::Lifecycle => 75,
@@ -1269,7 +1269,8 @@ fn plan_lp(w: &World, knobs: &Knobs, actor: &mut Actor, l: &Ledger) -> Vec<(Tx, 
             let (pk, p) = &mine[rng.idx(mine.len())];
             if let Some(pi) = pool_of(w, &p.whirlpool) {
                 if let Some(pool) = l.data(&pi.keys.whirlpool).and_then(decode::pool) {
-                    let (lo, hi) = pick_range(rng, l, &pi.keys.whirlpool, &pool);
+                    let (lo, hi) = if rng.chance(1, 8) { crate::gen3::pick_any_range(rng, l, &pi.keys.whirlpool, &pool) } else { pick_range(rng, l, &pi.keys.whirlpool, &pool) };
+                    let (lo, hi) = (lo.clamp(MIN_TICK - 70_000, MAX_TICK + 70_000), hi.clamp(MIN_TICK - 70_000, MAX_TICK + 70_000));
                     let la = liq_accounts(actor, &pi.keys, pk, p);
                     let mut starts = vec![ta_start(lo, pi.keys.tick_spacing)];
                     let su = ta_start(hi, pi.keys.tick_spacing);
